@@ -56,6 +56,8 @@ G.GROUPS['RelayConsts'] = dict(
         ('FLAG_LO_LEVEL', 'RELAY_FLAG_LO_LEVEL_TRIGGER'),
         ('CHFLAG_COUNTDOWN', 'SUPLA_CHANNEL_FLAG_COUNTDOWN_TIMER_SUPPORTED'),
         ('SBT_RESET', 'STAIRCASE_BTN_TYPE_RESET'),
+        ('FNC_STAIRCASE', 'SUPLA_CHANNELFNC_STAIRCASETIMER'), ('FNC_POWERSWITCH', 'SUPLA_CHANNELFNC_POWERSWITCH'),
+        ('FNC_LIGHTSWITCH', 'SUPLA_CHANNELFNC_LIGHTSWITCH'), ('SIZEOF_STAIR_CFG', 'sizeof(TChannelConfig_StaircaseTimer)'),
         ('HI', 'HI_VALUE'), ('LO', 'LO_VALUE'),
         ('VALUE_SIZE', 'SUPLA_CHANNELVALUE_SIZE'),
         ('QUEUE_SIZE', 'SRPC_QUEUE_SIZE'),
